@@ -45,7 +45,11 @@ def gen(seed, tier):
         script = [["wait-running"]]
         second = rng.random() < 0.5
         if second:
-            script += [["sleep", rng.choice([0.0, 0.0, 0.3])], ["accept-second"], ["sleep", 0.6], ["adopt", "late%d" % ph], ["sleep", 0.3]]
+            script += [["sleep", rng.choice([0.0, 0.0, 0.3])], ["accept-second"]]
+            for _ in range(rng.choice([0, 0, 1, 2])):
+                # further attempts while the first runner is still active: each has to be rejected as well
+                script += [["sleep", rng.choice([0.0, 0.1])], ["accept-second"]]
+            script += [["sleep", 0.6], ["adopt", "late%d" % ph], ["sleep", 0.3]]
             payloads.append({"id": "late%d" % ph, "flavour": rng.choice(FL), "phase": ph, "via": "adopt", "steps": [["block"]], "late": True})
         tsd = rng.choice(polls + [p + 1e-3 for p in polls[:6]] + [max(0.0, p - 1e-3) for p in polls[:6]] + [0.0, 0.0, 0.5, 2.0])
         if not second and tsd:
@@ -123,12 +127,18 @@ def check(h, reason):
         reached += 1
         # exclusive accept
         if ph["second"]:
-            sc_ = next((e for e in pe if e["kind"] == "second-accept-call"), None)
-            sr = next((e for e in pe if e["kind"] in ("second-accept-raised", "second-accept-returned")), None)
+            attempts = [e for e in pe if e["kind"] == "second-accept-call"]
+            outcomes = [e for e in pe if e["kind"] in ("second-accept-raised", "second-accept-returned")]
+            sc_ = attempts[0] if attempts else None
+            sr = outcomes[0] if outcomes else None
             if sc_ is not None:
-                if sr is None:
-                    V("C12/second-accept-not-rejected", "a concurrent accept() of another runner was still running at the end (%s) instead of raising RuntimeError" % reason)
+                if len(outcomes) < len(attempts):
+                    V("C12/second-accept-not-rejected/attempt-%d" % (len(outcomes) + 1), "concurrent accept() number %d of another runner was still running at the end (%s) instead of raising RuntimeError" % (len(outcomes) + 1, reason))
                     break
+                for n_, o in enumerate(outcomes[1:], 2):
+                    if o["kind"] == "second-accept-returned" or o.get("exc") != "RuntimeError":
+                        V("C12/second-accept-wrong-outcome/%s" % o.get("exc", "returned"), "concurrent accept() number %d: %s %s" % (n_, o["kind"], o.get("exc")))
+                sr = outcomes[-1] if outcomes else None
                 if sr["kind"] == "second-accept-returned" or sr.get("exc") != "RuntimeError":
                     V("C12/second-accept-wrong-outcome/%s" % sr.get("exc", "returned"), "concurrent accept(): %s %s" % (sr["kind"], sr.get("exc")))
                 t_seq = trig["seq"] if trig else hi
